@@ -8,9 +8,15 @@ role "kex"  (tested: client verifying the server's signature over H)
     x algorithm Y the server really signs with / names in the signature blob (same three)
     x the client's enabled set E (every subset of the three RSA names that contains base(X));
     ECDSA / Ed25519: genuine signature re-labelled with another algorithm name, and a key +
-    signature of a different type than negotiated.
+    signature of a different type (or curve) than negotiated - labelled honestly, or re-labelled
+    with the negotiated name.
     The lying server is the NON-tested peer: its host key object signs with Y whatever it is
     asked for (its `sign_ssh_data` ignores the requested algorithm).
+    x the exchange the lie starts in: k = 1 + len(rekeys) in 1..3. The first k-1 exchanges (initial
+    handshake and re-exchanges, initiator client or server) are answered honestly - genuine key,
+    signature of the negotiated algorithm -, from exchange k on the key object lies as above.
+    "The client accepts a key exchange only if ..." holds for every exchange of a session, and the
+    negotiated algorithm is that of the exchange in question.
 role "auth" (tested: server verifying a publickey USERAUTH_REQUEST)
     declared algorithm D (same six names) x signature algorithm Y x the server's enabled
     `pubkeys` set E (all eight subsets); ECDSA / Ed25519 re-labelled. The client is a puppet
@@ -18,13 +24,15 @@ role "auth" (tested: server verifying a publickey USERAUTH_REQUEST)
     hashed with Y's hash and labelled Y.
 Oracle: accepted  <=>  Y == base(X or D)  and  base(X or D) in E   (cert suffix stripped).
   kex: accepted = start_client returns and initial_kex_done; rejected = it raises and no NEWKEYS
+       k >= 2: accepted = the re-exchange completes; rejected = the client never switches its outbound
+       keys a k-th time, its byte stream (decoded by `peers.Tap`) holds k-1 NEWKEYS, its transport ends
   auth: accepted = USERAUTH_SUCCESS and is_authenticated(); rejected = FAILURE/DISCONNECT and not authenticated
 """
 import os
 
 from hypothesis import strategies as st
 
-from vlib import core, mitm, peers
+from vlib import core, lying, mitm, peers
 from vlib import refssh as R
 
 PROPERTY = "C07"
@@ -32,9 +40,11 @@ LEVEL = "exploration"
 RULE = (
     "complete enumeration of role {kex, auth} x negotiated/declared RSA algorithm (3 + 3 cert variants) x algorithm used "
     "and named in the signature (3) x verifier's enabled subset (kex: 4 subsets containing the negotiated one; auth: all 8), "
-    "plus ECDSA/Ed25519 signatures re-labelled with every other algorithm name and wrong-type key+signature; then "
-    "hypothesis-drawn repetitions varying key (rsa1024/rsa2048/rsa2048b) and user name. non-trivial = signature algorithm "
-    "differs from the negotiated/declared one, or that one is disabled; distinct by full case"
+    "plus ECDSA/Ed25519 signatures re-labelled with every other algorithm name and wrong-type key+signature (labelled honestly / as negotiated); role kex "
+    "additionally x the exchange in which the server starts to lie (1 = initial handshake, 2, 3 = re-exchanges after honest "
+    "ones; initiators rotating over client/server in the enumeration, drawn in the repetitions); then hypothesis-drawn "
+    "repetitions varying key (rsa1024/rsa2048/rsa2048b), user name and the re-exchange history. non-trivial = signature "
+    "algorithm differs from the negotiated/declared one, or that one is disabled; distinct by full case"
 )
 
 RSA = ["ssh-rsa", "rsa-sha2-256", "rsa-sha2-512"]
@@ -80,23 +90,37 @@ def _relabel(sigmsg, label):
 
 
 class LyingHostKey:
-    """Host key object for the non-tested server: shows `blob`, signs with `sigalg` (RSA) or
-    signs genuinely and labels the result `sigalg` (ECDSA/Ed25519), whatever it is asked for."""
+    """Host key object for the non-tested server. From its `k`-th signature on it shows `blob` and
+    signs with `sigalg` (RSA) or signs genuinely and labels the result `sigalg` (ECDSA/Ed25519),
+    whatever it is asked for. Before that (k > 1) it is the honest key `honest`: genuine blob,
+    signature of the algorithm it was asked for. (Every kex engine calls asbytes() and then
+    sign_ssh_data() once per exchange, so the number of signatures made tells the exchange.)"""
 
-    def __init__(self, key, sigalg, blob=None):
+    def __init__(self, key, sigalg, blob=None, k=1, honest=None, honest_blob=None):
         self.key = key
         self.sigalg = sigalg
         self.blob = blob if blob is not None else key.asbytes()
+        self.k = k
+        self.honest = honest if honest is not None else key
+        self.honest_blob = honest_blob if honest_blob is not None else (blob if honest is None and blob is not None else self.honest.asbytes())
         self.asked = []
+        self.lied = []
+
+    def _lying(self):
+        return len(self.asked) + 1 >= self.k
 
     def asbytes(self):
-        return self.blob
+        return self.blob if self._lying() else self.honest_blob
 
     def get_name(self):
-        return self.key.get_name()
+        return self.key.get_name() if self._lying() else self.honest.get_name()
 
     def sign_ssh_data(self, data, algorithm=None):
+        lying_now = self._lying()
         self.asked.append(algorithm)
+        if not lying_now:
+            return self.honest.sign_ssh_data(data, algorithm)
+        self.lied.append(len(self.asked))
         if self.sigalg in RSA and self.key.get_name() == "ssh-rsa":
             return self.key.sign_ssh_data(data, self.sigalg)
         return _relabel(self.key.sign_ssh_data(data, None), self.sigalg)
@@ -126,45 +150,81 @@ def _why(fam, case, alg, y, enabled):
 
 def run_kex(ctx, case):
     x, y, enabled = case["alg"], case["sigalg"], case["enabled"]
+    rekeys = list(case.get("rekeys") or [])  # initiators of exchanges 2..k; the lie starts in exchange k
+    k = 1 + len(rekeys)
     key = _key(case)
     blob = key.public_blob.key_blob if case.get("cert") else None
     if case.get("wrongtype"):
         # key and signature of another type than negotiated
         other = peers.keypool()[case["wrongtype"]]
-        lying = LyingHostKey(other, y)
+        lying_key = LyingHostKey(other, y, k=k, honest=key)
     else:
-        lying = LyingHostKey(key, y, blob)
+        lying_key = LyingHostKey(key, y, blob, k=k)
     expect = y == base(x) and base(x) in enabled and not case.get("wrongtype")
     nontriv = y != base(x) or bool(case.get("wrongtype"))
-    ctx.case(case, nontriv, ["kex", "kex:expect-accept" if expect else "kex:expect-reject", "kex:cert" if case.get("cert") else "kex:plain"])
-    ckw = {"disabled_algorithms": {"kex": [k for k in mitm.ALL_KEX if k != FAST_KEX], "keys": [a for a in ALLKEYALGS if a not in enabled]}}
+    cls = ["kex", "kex:expect-accept" if expect else "kex:expect-reject", "kex:cert" if case.get("cert") else "kex:plain", "kex:lie-from-exchange:%d" % k]
+    if k >= 2:
+        cls.append("kex:lying-exchange-started-by:" + ("client" if rekeys[-1] == "c" else "server"))
+    ctx.case(case, nontriv, cls)
+    ckw = {"disabled_algorithms": {"kex": [k_ for k_ in mitm.ALL_KEX if k_ != FAST_KEX], "keys": [a for a in ALLKEYALGS if a not in enabled]}}
     link, tc, ts = peers.make_pair(client_kw=ckw, host_keys=())
-    ts.server_key_dict = {x: lying}
+    ts.server_key_dict = {x: lying_key}
     m = mitm.PlainMitm(link)
+    prefix_failure = None
+    res = None
     try:
         ce, se = peers.start_both(tc, ts, timeout=30.0)
         done = bool(tc.initial_kex_done)
         negotiated = tc.host_key_type
+        if k >= 2:
+            if ce or se or not done:
+                prefix_failure = "initial exchange: client=%r server=%r" % (ce, se)
+            else:
+                try:
+                    tc.auth_password("u", "pw")
+                    lying.rekey_prefix(tc, ts, rekeys[:-1])
+                except Exception as e:
+                    prefix_failure = "honest re-exchange: %r" % (e,)
+                else:
+                    res = lying.rekey_observed(tc, ts, rekeys[-1], k)
+                    negotiated = tc.host_key_type
     finally:
         peers.shutdown(tc, ts)
         mitm.cancel_timers(tc, ts)
+    c_chunks, c_epochs = list(link.ab.sent), list(tc.v_out)
     if negotiated != x:
         raise core.HarnessError("could not steer the negotiation to %r (got %r, client=%r server=%r)" % (x, negotiated, ce, se))
-    if not lying.asked:
-        raise core.HarnessError("lying host key was never asked to sign (client=%r server=%r)" % (ce, se))
-    accepted = ce is None and done
-    newkeys = 21 in m.types("c2s")
     fam = "rsa" if base(x) in RSA else "ec"
-    if expect and not accepted:
-        ctx.violation("kex-signature-algorithm", "%s:honest-signature-rejected" % fam, case, "client=%r" % (ce,))
+    if prefix_failure is not None:
+        # exchanges 1..k-1 were answered with the genuine key and the negotiated algorithm
+        ctx.violation("kex-signature-algorithm", "%s:honest-signature-rejected" % fam, case, "before the lie: " + prefix_failure)
         return False
-    if not expect and (accepted or newkeys or done):
-        why = _why(fam, case, x, y, enabled)
+    if not lying_key.lied:
+        raise core.HarnessError("lying host key was never asked to sign exchange %d (client=%r server=%r rekey=%r)" % (k, ce, se, res))
+    if k == 1:
+        accepted = ce is None and done
+        newkeys = 21 in m.types("c2s")
+        rejected_cleanly = not (accepted or newkeys or done)
+        outcome = "start_client -> %r, initial_kex_done=%s, client sent NEWKEYS=%s" % (ce, done, newkeys)
+    else:
+        nk = lying.client_newkeys(c_chunks, c_epochs)
+        accepted = bool(res["accepted"]) and res["exc"] is None and res["returned"]
+        if res["busy"] and not res["accepted"] and nk < k:
+            ctx.inconc("kex:client-undecided-at-timeout")
+            return True
+        rejected_cleanly = not (res["accepted"] or nk >= k)
+        outcome = "exchange %d (started by %s): renegotiate_keys -> %r, client switched outbound keys %d time(s), NEWKEYS in the client's stream %d, client active afterwards=%s" % (
+            k, "client" if rekeys[-1] == "c" else "server", res["exc"], len(c_epochs), nk, res["active"])
+    if expect and not accepted:
+        ctx.violation("kex-signature-algorithm", "%s:honest-signature-rejected" % fam, case, outcome)
+        return False
+    if not expect and not rejected_cleanly:
+        why = _why(fam, case, x, y, enabled) + ("-on-rekey" if k >= 2 else "")
         ctx.violation(
             "kex-signature-algorithm",
             "%s:%s" % (fam, why),
             case,
-            "negotiated %s, client enables %r, server signed with / labelled %s: start_client -> %r, initial_kex_done=%s, client sent NEWKEYS=%s" % (x, enabled, y, ce, done, newkeys),
+            "negotiated %s, client enables %r, server signed with / labelled %s: %s" % (x, enabled, y, outcome),
         )
         return False
     return True
@@ -255,6 +315,14 @@ def domain():
     for x, wrong, y in (("ssh-ed25519", "rsa2048", "rsa-sha2-256"), ("ecdsa-sha2-nistp256", "ed25519", "ssh-ed25519"), ("rsa-sha2-512", "ecdsa256", "ecdsa-sha2-nistp256"), ("ecdsa-sha2-nistp256", "ecdsa384", "ecdsa-sha2-nistp384")):
         cases.append({"role": "kex", "alg": x, "sigalg": y, "enabled": [x], "key": "rsa2048" if x in RSA else EC[x], "cert": False, "wrongtype": wrong})
         cases.append({"role": "auth", "alg": x, "sigalg": y, "enabled": [a for a in ALLKEYALGS if a != y], "key": "rsa2048" if x in RSA else EC[x], "cert": False, "wrongtype": wrong})
+        # ... and the same foreign key whose genuine signature is re-labelled with the negotiated / declared name
+        cases.append({"role": "kex", "alg": x, "sigalg": x, "enabled": [x], "key": "rsa2048" if x in RSA else EC[x], "cert": False, "wrongtype": wrong})
+        cases.append({"role": "auth", "alg": x, "sigalg": x, "enabled": list(ALLKEYALGS), "key": "rsa2048" if x in RSA else EC[x], "cert": False, "wrongtype": wrong})
+    # role kex: the same lies, but starting in the 2nd / 3rd exchange of the session (after honest ones)
+    pats = {2: [["c"], ["s"]], 3: [["c", "s"], ["s", "c"], ["s", "s"], ["c", "c"]]}
+    for j, c in enumerate([c for c in cases if c["role"] == "kex"]):
+        for k in (2, 3):
+            cases.append(dict(c, rekeys=pats[k][(j + j // 3) % len(pats[k])]))
     return cases
 
 
@@ -274,18 +342,26 @@ def run(ctx):
         _dispatch(ctx, c)
     else:
         ctx.exhaustive = True
-        ctx.note("exhaustive_over", "role x algorithm x signature algorithm x enabled subset (%d cases) with one key per type" % len(dom))
+        ctx.note("exhaustive_over", "role x algorithm x signature algorithm x enabled subset x (kex) exchange the lie starts in 1..3 (%d cases) with one key per type and one initiator history per case" % len(dom))
     # generated repetitions: other RSA keys, other user names
-    rsa_cases = [c for c in dom if base(c["alg"]) in RSA and not c.get("cert") and not c.get("wrongtype")]
-    gen = st.tuples(st.sampled_from(rsa_cases), st.sampled_from(["rsa1024", "rsa2048", "rsa2048b"]), st.text(alphabet="abcxyz-_.0123456789é", min_size=1, max_size=12))
+    rsa_cases = [c for c in dom if base(c["alg"]) in RSA and not c.get("cert") and not c.get("wrongtype") and not c.get("rekeys")]
+    gen = st.tuples(
+        st.sampled_from(rsa_cases),
+        st.sampled_from(["rsa1024", "rsa2048", "rsa2048b"]),
+        st.text(alphabet="abcxyz-_.0123456789é", min_size=1, max_size=12),
+        st.lists(st.sampled_from(["c", "s"]), min_size=0, max_size=2),
+    )
 
     def body(t):
         c = dict(t[0])
         c["key"] = t[1]
-        c["user"] = t[2]
+        if c["role"] == "auth":
+            c["user"] = t[2]
+        elif t[3]:
+            c["rekeys"] = list(t[3])
         _dispatch(ctx, c)
 
-    ctx.explore(gen, body, ctx.scale(40, 2500), shrink=False)
+    ctx.explore(gen, body, ctx.scale(60, 3000), shrink=False)
 
 
 def replay(ctx, case):
